@@ -483,8 +483,8 @@ fn c02_large_scenario(ctx: &Ctx, case: u64, rep: &mut Report) {
             }
         }
         if variant == 2 && ctx.quick() {
-            // the second DIFAT sector (237th FAT sector, about 15.5 MB) reached cheaply by set_len
-            for st in [Step::HOpen { slot: 0, path: "/tail".into(), how: OpenHow::Create }, Step::HSetLen { slot: 0, n: 8_400_000 }, Step::HClose { slot: 0 }] {
+            // the second and third DIFAT sector (237th / 364th FAT sector, 15.5 / 23.8 MB) reached cheaply by set_len
+            for st in [Step::HOpen { slot: 0, path: "/tail".into(), how: OpenHow::Create }, Step::HSetLen { slot: 0, n: 17_000_000 }, Step::HClose { slot: 0 }] {
                 done.push(st.clone());
                 if sess.run(&st).is_some() {
                     rep.count("abandoned_model_divergence");
@@ -501,6 +501,9 @@ fn c02_large_scenario(ctx: &Ctx, case: u64, rep: &mut Report) {
             }
             rep.count("crash_points");
             rep.count("large_scenario.crash_points_past_second_difat_sector");
+            if n_difat >= 3 {
+                rep.count("large_scenario.crash_points_past_third_difat_sector");
+            }
             rep.max("max_fat_sectors", n_fat as u64);
             rep.max("max_difat_sectors", n_difat as u64);
         }
@@ -517,6 +520,9 @@ fn c02_large_scenario(ctx: &Ctx, case: u64, rep: &mut Report) {
 
 pub fn run_c02(ctx: &Ctx, rep: &mut Report) {
     if crate::props::huge::maybe_run(ctx, rep, "beyond 4 GiB", 10) {
+        return;
+    }
+    if crate::props::wide::maybe_run(ctx, rep, crate::props::wide::Role::Persist, 9, 1) {
         return;
     }
     let mut i = 0;
@@ -710,13 +716,16 @@ fn large_scenario(ctx: &Ctx, case: u64, rng: &mut Rng, rep: &mut Report) {
         }
         check_image(&sess.shared.bytes(), rep).map_err(|(s, d)| (s, format!("large scenario {which}, full: {d}")))?;
         if which == 3 && ctx.quick() {
-            // the second DIFAT sector (237th FAT sector, about 15.5 MB) reached cheaply by set_len
+            // the second and third DIFAT sector (237th / 364th FAT sector, 15.5 / 23.8 MB) reached cheaply by set_len
             run(&mut sess, Step::HOpen { slot: 0, path: "/big/tail".into(), how: OpenHow::Create }, &mut done)?;
-            run(&mut sess, Step::HSetLen { slot: 0, n: 8_400_000 }, &mut done)?;
+            run(&mut sess, Step::HSetLen { slot: 0, n: 17_000_000 }, &mut done)?;
             run(&mut sess, Step::HClose { slot: 0 }, &mut done)?;
             let img = check_image(&sess.shared.bytes(), rep).map_err(|(s, d)| (s, format!("large scenario {which}, after growing past the second DIFAT sector: {d}")))?;
             if img.difat_sectors.len() >= 2 {
                 rep.count("images_with_two_difat_sectors");
+            }
+            if img.difat_sectors.len() >= 3 {
+                rep.count("images_with_three_difat_sectors");
             }
         }
         // shrink, remove, re-create
